@@ -35,22 +35,29 @@ CHECKS = {
     "C03": dict(
         technique="TLA+ contract (StreamContract) model-checked by TLC on the closed-loop product of a nondeterministic "
                   "producer/consumer with the transition graph of the real netlist (state-loading FHDL stepper); "
-                  "recorded simulation traces validated against the same spec",
+                  "recorded simulation traces validated against the same spec; L2: register-level TLA+ model (StreamModel) "
+                  "checked against the same contract in M-mode at larger parameters and bound to the code by exhaustive "
+                  "conformance (every edge of the real netlists' graphs, every cycle of realistic-width runs)",
         text="TLC explores every valid/ready schedule and token sequence (reduced alphabets) against every reachable "
              "state of each real stream element and of 2-3 element pipelines; safety clauses InOrderExactlyOnce/"
              "Bounded and liveness NothingLost are checked on the complete product graph; long traces at real "
-             "widths are validated against the same contract.",
+             "widths are validated against the same contract; the L2 model (PipeValid, PipeReady, SyncFIFO +/- buffered, "
+             "width converters, Gearbox) is model-checked for FIFO depth <= 8 (12), ratios <= 8, gearbox pairs up to 10:4.",
         note="exhaustive only for the listed element parameterisations and 1-4 bit payload alphabets; FHDL semantics "
-             "= litex/gen/sim/core.py; stream producer holds its offer (protocol assumption)",
+             "= litex/gen/sim/core.py; stream producer holds its offer (protocol assumption); the L2 model gives no "
+             "verdict (a disagreement with the code is MODEL-DRIFT and triggers deeper L1 exploration of that element)",
         ref="4 (C03/C04)"),
     "C04": dict(
         technique="TLA+ contract (StreamContract) model-checked by TLC (safety ValidHold + liveness Progress under "
                   "fairness) on the closed-loop product with the real netlist's transition graph; lasso counterexamples "
-                  "replayed linearly on the real code",
+                  "replayed linearly on the real code; the packet elements of packet.py (Packetizer, Depacketizer, PacketFIFO, "
+                  "Arbiter, Dispatcher, Status) are explored the same way for their handshake clauses; L2 model as for C03",
         text="ValidHold is an invariant of every reachable product state; Progress/ProgressSink are temporal "
              "properties checked by TLC on the complete graph under weak fairness, i.e. every infinite cooperative "
-             "run of the real element is covered, which no terminating test can observe.",
-        note="same trusted base as C03; progress is required only when producer and consumer cooperate forever",
+             "run of the real element is covered, which no terminating test can observe.  For the packet elements a held "
+             "beat is compared field by field (defined bytes, last, header fields).",
+        note="same trusted base as C03; progress is required only when producer and consumer cooperate forever; padding "
+             "bytes after the end of a packet in a Packetizer's final word are don't-cares",
         ref="4 (C03/C04)"),
     "C05": dict(
         technique="TLA+ contract (CdcContract) model-checked by TLC on the closed-loop product of a two-clock "
@@ -62,8 +69,9 @@ CHECKS = {
              "time-outs 12/24 at drift 1/2): InOrderExactlyOnce, ValidHold, NeverOverflows, OnlyRealWords are "
              "invariants of every reachable state under every edge schedule and every resolution; a canary with the "
              "premise broken (time-out 8) must tear a word or the run fails.",
-        note="binary per-bit metastability abstraction; FIFO drift bounded by 2-3 edges (unbounded drift did not finish "
-             "in the budget); AsyncResetSynchronizer is the simulator's stand-in; common-reset behaviour not covered",
+        note="binary per-bit metastability abstraction; FIFO drift bounded by 2-3 edges in G-mode; AsyncResetSynchronizer is "
+             "the simulator's stand-in; with_common_rst, PulseSynchronizer and AXILiteClockDomainCrossing (thorough) are "
+             "covered; tokens with param/first/last fields only in the two-clock simulation traces (T-mode)",
         ref="4 (C05)"),
     "C06": dict(
         technique="TLA+ contract (WbIcContract) model-checked by TLC (safety + liveness Served under fairness) on the "
@@ -84,8 +92,9 @@ CHECKS = {
              "against every reachable state - memory, cache data/tag/dirty contents included - of SRAM (rw/ro), "
              "DownConverter, UpConverter, Converter chains, Remapper (origin/mask and region lists), Wishbone2CSR "
              "(+/- register) in front of csr_bus.SRAM and the write-back Cache (line = / > / < master word, evictions).",
-        note="memories of 2-8 words, bytes from a 2-value alphabet, classic cycles only (burst cycles not yet); every "
-             "chain ends in the repository's own SRAM; known finding: Cache power-up tags hit (listed)",
+        note="memories of 2-8 (bursts: 2-32) words, bytes from a 2-value alphabet; classic cycles and B4 registered-feedback "
+             "bursts (FlatMemBurst: constant, incrementing linear / wrap-4/8/16, master wait states inside a burst and cyc "
+             "ahead of stb); every chain ends in the repository's own SRAM; known finding: Cache power-up tags hit (listed)",
         ref="4 (C07)"),
     "C08": dict(
         technique="TLA+ contract (AxiLiteIcContract) model-checked by TLC (safety + liveness Served/ServedIfGaps under "
